@@ -52,9 +52,14 @@ THEOREMS = [
     'CC.C12_kcl_sample',
     'CC.C12_element_laws',
     'CC.C12_kvl_sample',
-    'CC.C12_periodic_steady',
+    'CC.C12_frequency_response',
 ]
-OPEN_STATEMENTS = []
+OPEN_STATEMENTS = [
+    'CC.C10_output_rows_statement — the voltage and current OUTPUT ROWS (c_row_voltage, c_row_current, d_row_*) give the report read from y = C x + D u: model = generated code (C10_gen_row_*) + correspondence + oracle only',
+    "not formalised: 'agrees with the exact response of the linear system for piecewise-linear inputs' — lsim is a parameter of the model; oracle only (independent matrix-exponential reference on every case)",
+    "not formalised: 'for constant inputs they settle to the DC solution' — C12_settle_dc is the fixed-point identity only (needs Re λ < 0 and the flow); oracle only (settle stream against DCSolution)",
+    "not formalised: 'for periodic inputs they settle to the multi-frequency steady state of C09' — C12_frequency_response (= C10_transfer) is the frequency response only, not convergence of the simulation; oracle only (periodic-steady-state stream against TimeDomainSolution)",
+]
 ASSUMPTIONS = [
     'scipy.signal.lsim returns samples of the exact solution of ẋ = A x + B u for inputs that are linear between grid points, started from x = 0 (its documented first-order-hold method); supported on every case by an independent scipy.linalg.expm evaluation',
     'the per-sample theorems are algebraic (they hold for every state sample x and input sample u, hence for every integrator): C12_sample_circuit proves KCL, KVL and every element law per sample for the model; the per-sample oracle checks the same on the implementation',
